@@ -4,8 +4,10 @@ package sim
 // leaf, what becomes readable; rejected Sets change nothing.
 
 import (
+	"bytes"
 	"fmt"
 	"strings"
+	"testing"
 
 	configapi "github.com/onosproject/onos-api/go/onos/config/v2"
 )
@@ -50,6 +52,26 @@ func init() {
 					}
 				}
 			}
+			alignAt := -1
+			if g.chance(1, 8) {
+				// a document whose size is an exact multiple of the chunk size (or one byte off): the size of a document is
+				// only known once the system has built it, so the runner executes the plan once, measures, sizes the marked
+				// leaf and runs again (Knobs.Align; the resolved plan is what is recorded)
+				p.Profile = "validated-document+aligned"
+				var sets []int
+				for i := range p.Scenario {
+					if p.Scenario[i].Kind == "set" {
+						sets = append(sets, i)
+					}
+				}
+				alignAt = sets[g.pick(len(sets))]
+				op := &p.Scenario[alignAt]
+				for _, t := range sortedKeys(op.Targets) {
+					op.Targets[t] = dedupOps(append(op.Targets[t], MOp{P: Path{{Name: "cont1b"}, {Name: "big"}}, V: "s:" + AlignMarker + strings.Repeat("x", 50000)}))
+					break
+				}
+				p.Knobs.Align = &AlignSpec{Pick: g.pick(4), Eps: []int{0, 0, 0, -1, 1}[g.pick(5)], Mult: g.pick(2)}
+			}
 			p.Sched = g.RandSched()
 			p.Knobs.ConnLate = map[string]bool{}
 			for _, t := range p.Knobs.Targets {
@@ -60,11 +82,70 @@ func init() {
 			}
 			return p
 		},
+		Run: func(t *testing.T, plan *Plan) *Result {
+			prof := Profiles["C05"]
+			if plan.Knobs.Align == nil {
+				return runSys(t, plan, prof)
+			}
+			al := plan.Knobs.Align
+			pass1 := plan.Clone()
+			pass1.Knobs.Align = nil
+			r1 := runSys(t, pass1, prof)
+			if r1.Harness != "" || len(r1.Viol) > 0 {
+				r1.Plan = pass1
+				return r1
+			}
+			var lens []int
+			for _, f := range strings.Split(r1.Extra["c05-marker-docs"], ",") {
+				var n int
+				if _, err := fmt.Sscan(f, &n); err == nil && n > 0 {
+					lens = append(lens, n)
+				}
+			}
+			final := plan.Clone()
+			final.Knobs.Align = nil
+			if len(lens) > 0 {
+				const chunk = 100000
+				L := lens[al.Pick%len(lens)]
+				M := (L + chunk - 1) / chunk * chunk
+				M += al.Mult * chunk
+				delta := M - L + al.Eps
+				for i := range final.Scenario {
+					for t, ops := range final.Scenario[i].Targets {
+						for j := range ops {
+							if strings.HasPrefix(ops[j].V, "s:"+AlignMarker) {
+								final.Scenario[i].Targets[t][j].V = ops[j].V + strings.Repeat("x", delta)
+							}
+						}
+					}
+				}
+			}
+			res := runSys(t, final, prof)
+			res.Plan = final
+			return res
+		},
 		Arm: func(s *Sys) { s.Mon = append(s.Mon, &c05{s: s, comStep: map[string]int{}}) },
 		NonTrivial: func(s *Sys) bool {
 			return s.K.Probes["c05-built-on-predecessor"] > 0 || s.K.Probes["c05-chunked-document"] > 0 || s.K.Probes["c05-plugin-rejected"] > 0
 		},
 	}
+}
+
+// FillExtra reports the sizes of the validated documents that contain the alignment marker, and counts documents that are
+// an exact multiple of the chunk size.
+func (m *c05) FillExtra(x map[string]string) {
+	var lens []string
+	for _, d := range m.s.Plugin.Docs {
+		n := 0
+		for _, c := range d.Chunks {
+			n += c
+		}
+		if bytes.Contains(d.Bytes, []byte(AlignMarker)) {
+			lens = append(lens, fmt.Sprint(len(d.Bytes)))
+		}
+		_ = n
+	}
+	x["c05-marker-docs"] = strings.Join(lens, ",")
 }
 
 func (m *c05) OnCfg(old, new *configapi.Configuration, w WriteRec) {
@@ -104,6 +185,11 @@ func (m *c05) OnProp(old, new *configapi.Proposal, w WriteRec) {
 	}
 	if len(doc.Chunks) > 1 {
 		s.K.Probe("c05-chunked-document")
+	}
+	if len(doc.Bytes) > 0 && len(doc.Bytes)%100000 == 0 {
+		s.K.Probe("c05-document-exact-chunk-multiple")
+	} else if r := len(doc.Bytes) % 100000; len(doc.Bytes) > 1000 && (r == 1 || r == 99999) {
+		s.K.Probe("c05-document-one-off-chunk-multiple")
 	}
 	if new.Status.PrevIndex != 0 {
 		s.K.Probe("c05-built-on-predecessor")
